@@ -2633,6 +2633,9 @@ PPL::Grid::time_elapse_assign(const Grid& y) {
     }
   }
 
+  // The origin, as a parameter, is null.
+  gs.remove_invalid_lines_and_parameters();
+
   PPL_ASSERT(gs.sys.OK());
 
   if (gs_num_rows == 0) {
